@@ -15,17 +15,17 @@ CONSTANTS
 PostBodies ==
     CASE BodyProfile = "pong"  -> {<<"PONG">>}
       [] BodyProfile = "msg"   -> {<<"PONG">>, <<"m1">>, <<"CLOSE">>}
-      [] BodyProfile = "close" -> {<<"CLOSE">>, <<"m1", "CLOSE">>, <<"CLOSE", "m1">>, <<"BAD">>,
+      [] BodyProfile = "close" -> {<<"CLOSE">>, <<"m1", "CLOSE">>, <<"CLOSE", "m1">>, <<"BAD7">>,
                                    <<"OVERSIZE">>}
-      [] BodyProfile = "types" -> {<<"PONG">>, <<"m1">>, <<"CLOSE">>, <<"UPGRADE">>, <<"BAD">>,
+      [] BodyProfile = "types" -> {<<"PONG">>, <<"m1">>, <<"CLOSE">>, <<"UPGRADE">>, <<"BAD7">>,
                                    <<"GARBAGE">>, <<"OVERSIZE">>, <<"m1", "CLOSE">>,
                                    <<"CLOSE", "m1">>, <<"CLOSE", "UPGRADE">>, <<"mE1">>,
-                                   <<"BAD", "m1">>, <<"m1", "BAD">>}
+                                   <<"BAD7", "m1">>, <<"m1", "BAD7">>}
       [] OTHER -> {}
 Frames ==
     CASE FrameProfile = "handshake" -> {"PINGprobe", "UPGRADE", "m1", "OVERSIZE"}
       [] FrameProfile = "steady"    -> {"PINGprobe", "UPGRADE", "PONG", "m1", "CLOSE"}
-      [] FrameProfile = "all"       -> {"PINGprobe", "UPGRADE", "PONG", "m1", "CLOSE", "BAD",
+      [] FrameProfile = "all"       -> {"PINGprobe", "UPGRADE", "PONG", "m1", "CLOSE", "BAD7",
                                         "OVERSIZE", "EMPTY", "PINGx"}
       [] OTHER -> {}
 
